@@ -5,6 +5,7 @@ import (
 	"sync"
 	"sync/atomic"
 
+	"github.com/zishang520/engine.io/v2/engine"
 	"github.com/zishang520/engine.io/v2/verifhook"
 )
 
@@ -14,7 +15,7 @@ var Points = []string{
 	"server.Handshake.afterNewSocket", "server.onWebSocket.beforeMaybeUpgrade",
 	"socket.MaybeUpgrade.enter", "socket.upgrade.check.window",
 	"polling.send.start", "ws.send.start", "wt.send.start",
-	"timer.interval.afterTick", "timer.Stop.afterStop",
+	"timer.interval.afterTick", "timer.Stop.afterStop", "socket.ping.between",
 	"wt.nilSession.CloseWithError",
 }
 
@@ -26,6 +27,7 @@ type Gate struct {
 	// Observe, if set, is called for every arrival (armed or not), outside the gate lock.
 	Observe func(point string, args []any)
 	hits    map[string]int
+	watched []any
 }
 
 // Parked is a goroutine held at a hook point.
@@ -57,6 +59,11 @@ func init() {
 			}
 			if g, ok := registry.Load(args[0]); ok {
 				g.(*Gate).arrive(pt, args)
+			} else if s, ok := args[0].(interface{ Server() engine.BaseServer }); ok {
+				// a session not yet announced: route by its server
+				if g, ok := registry.Load(s.Server().Proto()); ok {
+					g.(*Gate).arrive(pt, args)
+				}
 			}
 		})
 	}
@@ -77,8 +84,25 @@ func HookHits() map[string]int64 {
 func NewGate() *Gate { return &Gate{armed: map[string]int{}, hits: map[string]int{}} }
 
 // Watch routes hook calls whose first argument is obj to this gate.
-func (g *Gate) Watch(obj any)   { registry.Store(obj, g) }
+func (g *Gate) Watch(obj any) {
+	registry.Store(obj, g)
+	g.mu.Lock()
+	g.watched = append(g.watched, obj)
+	g.mu.Unlock()
+}
 func (g *Gate) Unwatch(obj any) { registry.Delete(obj) }
+
+// Close releases everything parked and forgets every watched object.
+func (g *Gate) Close() {
+	g.ReleaseAll()
+	g.mu.Lock()
+	ws := g.watched
+	g.watched = nil
+	g.mu.Unlock()
+	for _, o := range ws {
+		registry.Delete(o)
+	}
+}
 
 // Arm makes the next n arrivals at point park (n < 0: all).
 func (g *Gate) Arm(point string, n int) {
